@@ -26,6 +26,9 @@ CONTENTS = {
     "c2": "def beta():\n" + _body(1) + "\n\ndef gamma(x, y):\n" + _body(3, 10) + "\n",
     "c3": "import os\n\n\ndef delta(q):\n" + _body(34, 100) + "\nX = 1\n",
 }
+# a near twin of c1: the same text behind a byte order mark - other bytes (another checksum), another analysis (the first
+# column moves), and nothing else; "content unchanged" is a statement about the bytes of the file
+CONTENTS["c4"] = "\ufeff" + CONTENTS["c1"]
 TAINT_NAME = "TAINTED"
 
 
